@@ -25,7 +25,7 @@ EXPECTED_PROBES = ['buffer-stack-depth>1', 'buffer-stack-grown-twice', 'flush-dr
 
 class P(sb.StreamProp):
     ID = ID
-    CLASSES = {'stream', 'phantom', 'token', 'premature', 'curbuf', 'api', 'bol', 'lineno', 'fatal', 'hang', 'input', 'less',
+    CLASSES = {'sanitizer', 'crash', 'stream', 'phantom', 'token', 'premature', 'curbuf', 'api', 'bol', 'lineno', 'fatal', 'hang', 'input', 'less',
                'wrap-with-pending', 'wrap-without-eof', 'read-after-eof'}
 
     def gen_scenario(self, rng):
